@@ -111,10 +111,11 @@ fn run_history(ops: &[Op], probes: &[Box<Name>], classes: &[u16], out: &mut Out,
 }
 
 fn random(r: &mut StdRng, n: usize, out: &mut Out) {
-    let pools: [&[&str]; 3] = [
+    let pools: [&[&str]; 4] = [
         &["a.", "b.a.", "c.b.a.", "d.a.", "e.", "."],
         &["x.y.z.", "y.z.", "w.x.y.z.", "v.w.x.y.z.", "q.y.z.", "z."],
         &["example.test.", "sub.example.test.", "deep.sub.example.test.", "test.", "other.test.", "SUB.example.TEST."],
+        &["a-label-of-more-than-sixteen-octets.test.", "x.a-label-of-more-than-sixteen-octets.test.", "test.", "another-quite-long-label-here.x.a-label-of-more-than-sixteen-octets.test.", "short.test.", "."],
     ];
     let all_classes = [1u16, 3, 4, 254];
     for i in 0..n {
@@ -125,6 +126,7 @@ fn random(r: &mut StdRng, n: usize, out: &mut Out) {
         for p in pool {
             probes.push(nm(p));
             probes.push(nm(&if *p == "." { "x.".to_string() } else { format!("x.{}", p) }));
+            if let Some(t) = tail_trick(p) { probes.push(nm(&t)); }
         }
         probes.push(nm(&rand_case(r, pool[1]).to_ascii_uppercase()));
         probes.push(nm("unrelated.zone."));
